@@ -185,7 +185,10 @@ def gen_spec(rng, cfgi, idx):
             dirs = [segs[:cut], segs[cut:]]
             order = rng.choice([[0, 1], [1, 0]])
     return {"n": n, "d": d, "fc": fc, "sc": sc, "k0": k0, "dtype": dtype, "cplx": cplx, "nsub": nsub,
-            "cont": cont, "dirs": dirs, "order": order, "name": "cfg%d-%d" % (cfgi, idx)}
+            "cont": cont, "dirs": dirs, "order": order, "name": "cfg%d-%d" % (cfgi, idx),
+            # compression / checksum change nothing a reader may observe; in continuous mode they make the
+            # writer keep one index row per block instead of filling the skipped slots
+            "comp": rng.choice([0, 0, 0, 1, 6]), "cksum": rng.random() < 0.25}
 
 
 def write_channel(spec):
@@ -201,8 +204,8 @@ def write_channel(spec):
         tops.append(top)
         first = segs[0][0]
         w = digital_rf.DigitalRFWriter(chdir, np.dtype(spec["dtype"]), spec["sc"], spec["fc"], spec["k0"] + first,
-                                       spec["n"], spec["d"], uuid_str="dir%d" % di, compression_level=0,
-                                       checksum=False, is_complex=spec["cplx"], num_subchannels=spec["nsub"],
+                                       spec["n"], spec["d"], uuid_str="dir%d" % di, compression_level=spec.get("comp", 0),
+                                       checksum=bool(spec.get("cksum", False)), is_complex=spec["cplx"], num_subchannels=spec["nsub"],
                                        is_continuous=spec["cont"], marching_periods=False)
         for off, ln in segs:
             cnt = ln * spec["nsub"]
@@ -485,6 +488,7 @@ def oracle(res, spec, impl, queries, kinds, dirs, splits):
     nsub = spec["nsub"]
     n, d, fc = spec["n"], spec["d"], spec["fc"]
     ident = {k: spec[k] for k in ("n", "d", "fc", "sc", "k0", "dtype", "cplx", "nsub", "cont", "dirs", "order")}
+    ident.update(comp=spec.get("comp", 0), cksum=bool(spec.get("cksum", False)))
     file_firsts = {slot_lo(f["ms"], n, d) for files in dirs for f in files}
     for q in queries:
         if q[0] == 1 and q[3] < 0:
